@@ -5,7 +5,10 @@ use std::{
 	sync::atomic::{AtomicU64, Ordering},
 };
 
-pub const NUM_SITES: usize = 17;
+pub const NUM_SITES: usize = 18;
+/// reader-side site (between index lookup and value fetch of a point read): reached millions of
+/// times per history, so it is delayed with its own, much smaller probability
+pub const READ_SITE: usize = 17;
 
 static HITS: [AtomicU64; NUM_SITES] = [const { AtomicU64::new(0) }; NUM_SITES];
 static DELAYED: AtomicU64 = AtomicU64::new(0);
@@ -18,6 +21,9 @@ static MASK: AtomicU64 = AtomicU64::new(u64::MAX);
 /// per-site fixed extra delay in microseconds (0 = none); used to slow one stage down
 static SLOW_SITE: AtomicU64 = AtomicU64::new(0);
 static SLOW_US: AtomicU64 = AtomicU64::new(0);
+/// reader-side site: delays per million hits, and their maximal length in microseconds
+static READ_PPM: AtomicU64 = AtomicU64::new(0);
+static READ_MAX_US: AtomicU64 = AtomicU64::new(0);
 
 thread_local! {
 	static RNG: Cell<u64> = const { Cell::new(0) };
@@ -50,6 +56,18 @@ fn hook(site: u32) {
 			std::thread::sleep(std::time::Duration::from_micros(us));
 		}
 	}
+	if s == READ_SITE {
+		let ppm = READ_PPM.load(Ordering::Relaxed);
+		if ppm > 0 {
+			let r = next();
+			if r % 1_000_000 < ppm {
+				DELAYED.fetch_add(1, Ordering::Relaxed);
+				let us = 20 + (r >> 24) % READ_MAX_US.load(Ordering::Relaxed).max(1);
+				std::thread::sleep(std::time::Duration::from_micros(us));
+			}
+		}
+		return
+	}
 	let p = PROB.load(Ordering::Relaxed);
 	if p == 0 || MASK.load(Ordering::Relaxed) & (1 << s) == 0 {
 		return
@@ -74,6 +92,7 @@ pub fn install(seed: u64, prob_per_mille: u64, max_us: u64, mask: u64) {
 	MASK.store(mask, Ordering::SeqCst);
 	SLOW_SITE.store(0, Ordering::SeqCst);
 	SLOW_US.store(0, Ordering::SeqCst);
+	READ_PPM.store(0, Ordering::SeqCst);
 	parity_db::verif::set_yield_hook(Some(hook));
 }
 
@@ -82,7 +101,15 @@ pub fn slow_site(site: u32, us: u64) {
 	SLOW_US.store(us, Ordering::SeqCst);
 }
 
+/// Hold readers between their index lookup and their value fetch: `ppm` of a million point reads
+/// sleep 20..20+max_us microseconds there.
+pub fn slow_readers(ppm: u64, max_us: u64) {
+	READ_MAX_US.store(max_us, Ordering::SeqCst);
+	READ_PPM.store(ppm, Ordering::SeqCst);
+}
+
 pub fn uninstall() {
+	READ_PPM.store(0, Ordering::SeqCst);
 	PROB.store(0, Ordering::SeqCst);
 	SLOW_US.store(0, Ordering::SeqCst);
 	parity_db::verif::set_yield_hook(None);
@@ -111,4 +138,5 @@ pub const SITE_NAMES: [&str; NUM_SITES] = [
 	"after_signal",
 	"reindex_record",
 	"commit_queued",
+	"get_value_lookup",
 ];
